@@ -88,9 +88,11 @@ class Builder:
 
     # ---------------------------------------------------------------- naming / emission
     def fresh(self, stem):
-        self.n += 1
-        w = self.pool[(self.n * 7 + len(stem)) % len(self.pool)]
-        return "%s_%s%d" % (stem, w, self.n)
+        # one counter per program: names are unique across its modules
+        self.prog.counter = getattr(self.prog, "counter", 0) + 1
+        n = self.prog.counter
+        w = self.pool[(n * 7 + len(stem)) % len(self.pool)]
+        return "%s_%s%d" % (stem, w, n)
 
     def emit(self, *lines):
         self.mod.lines.extend(lines)
@@ -553,6 +555,58 @@ def p_multi_inherit(b):
         b.bind("%s.%s()" % (inst.name, mn), ret, True, ["method-call", "multiple-inheritance"])
 
 
+def p_override(b):
+    """A method (and a class attribute) re-defined in a subclass, used through base, subclass and a value that may
+    be either (the usage that links both definitions)."""
+    b.prog.features.update(["classes", "inheritance", "method-override"])
+    # variant: the base class lives in the imported helper module and only the override is written here
+    imported = [c for c in b.prog.classes.values() if c.module != b.mod.name and c.name in b.imports and not b.init_of(c)
+                and any(k == "method" and not ps and ret and ret[0] in LIT and not mn.startswith("__") for mn, (k, ps, ret) in c.methods.items())]
+    if imported and b.draw(st.booleans()):
+        bci = b.draw(st.sampled_from(sorted(imported, key=lambda c: c.name)))
+        meth, ret = sorted((mn, r) for mn, (k, ps, r) in bci.methods.items() if k == "method" and not ps and r and r[0] in LIT and not mn.startswith("__"))[0]
+        base_q, sub = b.qual(bci.name), "K" + b.fresh("Square").replace("_", "")
+        sci = ClassInfo(sub, b.mod.name)
+        sci.bases, sci.init = [bci.name], None
+        sci.methods[meth] = ("method", [], ret)
+        b.emit("class %s(%s):" % (sub, base_q), "    def %s(self):" % meth, "        return %s" % LIT[ret[0]][-1])
+        b.prog.classes[sub] = sci
+        b.prog.focus = getattr(b.prog, "focus", []) + [meth]
+        b.prog.features.add("override-of-imported-base")
+        link = b.fresh("un")
+        fn1, fn2 = b.fresh("fun"), b.fresh("fun")
+        b.emit("def %s():" % fn1, "    return %s().%s()" % (sub, meth),
+               "def %s(flag):" % fn2, "    if flag:", "        %s = %s()" % (link, base_q), "    else:", "        %s = %s()" % (link, sub),
+               "    return %s.%s()" % (link, meth))
+        b.bind("%s()" % fn1, ret, True, ["method-call", "override"])
+        b.bind("%s(True)" % fn2, ret, False, ["method-call", "override"])
+        b.bind("%s(False)" % fn2, ret, False, ["method-call", "override"])
+        return
+    base, sub = "K" + b.fresh("Shape").replace("_", ""), "K" + b.fresh("Square").replace("_", "")
+    meth, attr = b.fresh("meth"), b.fresh("cattr")
+    for cn, bases, ret, val in ((base, "", LIT["str"][1], "1"), (sub, "(%s)" % base, LIT["str"][2], "2")):
+        ci = ClassInfo(cn, b.mod.name)
+        ci.bases = [base] if bases else []
+        ci.init = None
+        ci.attrs[attr] = ("int",)
+        ci.methods[meth] = ("method", [], ("str",))
+        b.emit("class %s%s:" % (cn, bases), "    %s = %s" % (attr, val), "    def %s(self):" % meth, "        return %s" % ret)
+        b.prog.classes[cn] = ci
+    b.prog.focus = getattr(b.prog, "focus", []) + [meth, attr]
+    order = b.draw(st.sampled_from(["sub-first", "sub-first", "base-first", "link-first"]))
+    link = b.fresh("un")
+    uses = {
+        "sub": lambda: b.bind("%s().%s()" % (sub, meth), ("str",), True, ["method-call", "override"]),
+        "base": lambda: b.bind("%s().%s()" % (base, meth), ("str",), True, ["method-call", "override"]),
+        "link": lambda: (b.emit("%s = %s() if len('ab') == 2 else %s()" % (link, base, sub)),
+                         b.bind("%s.%s()" % (link, meth), ("str",), False, ["method-call", "override"]),
+                         b.bind("%s.%s" % (link, attr), ("int",), False, ["attribute", "override"])),
+    }
+    seq = {"sub-first": ["sub", "link", "base"], "base-first": ["base", "sub", "link"], "link-first": ["link", "sub", "base"]}[order]
+    for k in seq:
+        uses[k]()
+
+
 def p_use_class(b, ci=None):
     ci = ci or b.some_class()
     if ci is None:
@@ -728,7 +782,7 @@ def p_flow(b):
 
 
 PRODUCTIONS = [p_literals, p_unpack, p_function, p_function, p_function, p_lambda, p_class, p_class, p_use_class,
-               p_decorator, p_generator, p_comprehension, p_flow, p_flow, p_multi_inherit]
+               p_decorator, p_generator, p_comprehension, p_flow, p_flow, p_multi_inherit, p_override]
 
 
 @st.composite
@@ -781,6 +835,10 @@ def programs(draw, max_blocks=9, multi=None):
             hfq = hf
         e, d, x = b.scalar()
         b.bind("%s(%s)" % (hfq, e), d, x, ["imported-function"])
+        if draw(st.booleans()):
+            e2, d2, x2 = b.scalar()
+            b.bind("%s(first=%s)" % (hfq, e2), d2, x2, ["imported-function", "kwcall-other-module"])
+            prog.features.add("kwcall-other-module")
         for c in hclasses:
             if draw(st.booleans()):
                 p_use_class(b, c)
